@@ -401,3 +401,5 @@ UNITS.append(check_value_key_unit("C06"))
 
 
 from contracts.share import shared  # noqa: E402
+from contracts.share import shared  # noqa: E402,F811
+UNITS += shared("C06", "contracts.c03", "ArgumentParser.parse_known_args")
